@@ -164,6 +164,24 @@ CLAIMED = {
         "dispatcher path by which overheard 0404 replies reach Schedule._handle_msg, threading.Lock (single-threaded use).",
         "6 (C18)",
     ),
+    "C13": (
+        "Coq proof (engine pause/resume automaton: every snapshot/restore, succeeding or raising, leaves every engine variable unchanged; invariant of all reachable states by induction) + step-by-step correspondence with the real Gateway + exploration of all public views over derived histories",
+        "8 theorems in coq/props/C13.v about coq/model/M_Engine.v (= Engine/Gateway._pause/_resume, get_state and "
+        "_restore_cached_packets as pause; body; resume with the body free to raise): for every up engine and ANY sequence of snapshots "
+        "and restores in any mix of successes and failures, handler / sending switch / discovery switch / writing flag / saved tuple are "
+        "exactly as before and the next packet reaches the same handler; a snapshot while a client holds the engine paused is refused and "
+        "changes nothing; every reachable state is up or one resume away from up; the pre-repair code (no try/finally) is the refuted "
+        "witness. PARTIAL: 'every public view returns without raising after any history' is NOT a theorem -- the several hundred view "
+        "properties of the entity classes are not modelled; it is decided by exploration of the implementation (derived histories + a "
+        "sweep regenerating every recorded packet shape from its schema regex in lowest/highest/random modes), and Message._expired's "
+        "totality is C14's theorem. Tie: ~170 (thorough ~900) op sequences x 3 engine configurations on real Gateways (read-only and "
+        "writeable protocol) compared step by step with the automaton; bodies made to raise by an unreadable entity, a missing packet "
+        "source, and cancellation at the await.",
+        "Trusted: Coq kernel, harness. Modelled not verified: the body of get_state/restore as 'does not touch the engine variables'; "
+        "threading.Lock around _engine_state (single-threaded use); transport pause_reading/resume_reading (no-ops for the file "
+        "transport; not observed).",
+        "6 (C13)",
+    ),
 }
 
 NOT_YET = "not claimed yet: the Coq model and correspondence harness for this property are not built in this revision (planned in DESIGN.md section 6)"
